@@ -73,6 +73,7 @@ type seqRun struct {
 	gateArmed   int32
 	gateEntered chan struct{}
 	gateRelease chan struct{}
+	watchdog    time.Duration
 }
 
 var seqCur atomic.Pointer[seqRun]
@@ -179,7 +180,10 @@ type stuckErr string
 
 func (e stuckErr) Error() string { return string(e) }
 
+// The watchdog only detects a hang (a goroutine that never comes back); it is re-armed for
+// every single wait and never orders events.
 func (r *seqRun) waitEv(tm *time.Timer, what string) (hookEv, error) {
+	tm.Reset(r.watchdog)
 	select {
 	case e := <-r.evCh:
 		return e, nil
@@ -189,6 +193,7 @@ func (r *seqRun) waitEv(tm *time.Timer, what string) (hookEv, error) {
 }
 
 func (r *seqRun) waitRet(tm *time.Timer, what string) (seqRet, error) {
+	tm.Reset(r.watchdog)
 	select {
 	case x := <-r.retCh:
 		return x, nil
@@ -363,6 +368,7 @@ func (r *seqRun) doRace(label string, p int, tm *time.Timer, o *obsT) error {
 	r.gateEntered, r.gateRelease = make(chan struct{}), make(chan struct{})
 	atomic.StoreInt32(&r.gateArmed, 1)
 	r.cmd[gate] <- seqCmd{kind: cSetSize, n: size, sem: r.sem}
+	tm.Reset(r.watchdog)
 	select {
 	case <-r.gateEntered:
 	case <-tm.C:
@@ -448,7 +454,7 @@ func (sp *seqPool) runCase(c caseT, wd time.Duration) (o obsT) {
 	np := sp.np
 	r := &seqRun{sem: semaphore.NewWeighted(c.Size), np: np, cmd: sp.cmd, evCh: sp.evCh, retCh: sp.retCh,
 		status: make([]string, np+2), w: make([]int64, np+2), pend: make([]int64, np+2),
-		cancel: make([]context.CancelFunc, np+2), elem: make([]uintptr, np+2)}
+		cancel: make([]context.CancelFunc, np+2), elem: make([]uintptr, np+2), watchdog: wd}
 	r.semID = semID(r.sem)
 	for p := range r.status {
 		r.status[p] = "idle"
